@@ -722,8 +722,89 @@ def r04_15(ctx):
     delegate(ctx, c02.r02_2, lambda c: c.startswith("unescape/"))
 
 
+def r04_16(ctx):
+    """R04.16 both parsers see the same entry boundaries: parser 1 takes the leading run of [A-Za-z0-9_$-] of a line as its keyword
+    (`_command_match`), so `if(EXPR)`, `if!SYM`, `menu\"x\"` start an entry. The test by which parser 2's hand-written option block
+    decides that a line starts a new entry - folded over the constant keyword tuple - classifies those first tokens as entry starts
+    too, and does not take an option keyword (`default`, `depends`, `select`, ...) for one."""
+    import re as _re
+    from .c02 import compiled_pattern
+    repo = ctx.repo
+    GR = "esp_kconfiglib.kconfig_grammar"
+    f = repo.func(f"{GR}:KconfigOptionBlock.parseImpl.<locals>.is_line_with_option")
+    init = repo.func(f"{GR}:KconfigOptionBlock.__init__")
+    ctx.analysed(f.qual, init.qual)
+    kw = None
+    for n in ast.walk(init.node):
+        if isinstance(n, ast.Assign) and ast.unparse(n.targets[0]) == "self.entry_keywords" and isinstance(n.value, (ast.Tuple, ast.List, ast.Set)):
+            kw = [e.value for e in n.value.elts if isinstance(e, ast.Constant)]
+    if not kw:
+        raise AnchorError("KconfigOptionBlock.entry_keywords is not a constant tuple")
+    cm = repo.resolve_const(CORE, "_command_match")
+    pat = compiled_pattern(repo, CORE, cm) if cm is not None else None
+    if pat is None:
+        raise AnchorError("parser 1's _command_match not found")
+    tests = [x for n in ast.walk(f.node) if isinstance(n, (ast.If, ast.Return)) for x in ast.walk(n.test if isinstance(n, ast.If) else (n.value or ast.Constant(None)))
+             if "entry_keywords" in ast.unparse(x) and isinstance(x, (ast.Call, ast.Compare))]
+    # outermost predicate nodes only
+    tests = [t for t in tests if not any(t is not o and any(y is t for y in ast.walk(o)) for o in tests)]
+    if not tests:
+        raise AnchorError("is_line_with_option: no test against entry_keywords")
+    t = tests[0]
+    subj = None
+    if isinstance(t, ast.Call) and isinstance(t.func, ast.Attribute) and t.func.attr == "startswith" and "entry_keywords" in ast.unparse(t.args[0]):
+        subj, pred = ast.unparse(t.func.value), (lambda w: any(w.startswith(k) for k in kw))
+    elif isinstance(t, ast.Compare) and len(t.ops) == 1 and isinstance(t.ops[0], ast.In) and "entry_keywords" in ast.unparse(t.comparators[0]):
+        subj, pred = ast.unparse(t.left), (lambda w: w in kw)
+    elif isinstance(t, ast.Call) and isinstance(t.func, ast.Name) and t.func.id == "any":
+        raise AnalysisError(f"is_line_with_option: keyword test `{ast.unparse(t)[:60]}` not understood")
+    else:
+        raise AnalysisError(f"is_line_with_option: keyword test `{ast.unparse(t)[:60]}` not understood")
+    witnesses = ["if(A)", "if!A", 'menu"x"', "config", "endif", "default", "depends", "select", "bool", "prompt", "range", "help", "imply", "set", "visible", "option"]
+    for w in witnesses:
+        m = _re.match(pat, w)
+        p1 = bool(m) and m.group(1) in kw
+        p2 = pred(w)
+        construct = f"KconfigOptionBlock/first token `{w}`: entry start for both parsers or for neither"
+        if p1 == p2:
+            ctx.ok(construct, f.loc(t), parser1=p1, parser2=p2)
+        else:
+            ctx.bad(construct, f"parser 1 reads the keyword `{m.group(1) if m else None}` ({'an' if p1 else 'no'} entry start), parser 2's test `{ast.unparse(t)[:50]}` on "
+                    f"`{subj}` says {'entry start' if p2 else 'still inside the option block'}: one parser accepts a file the other rejects", f.loc(t))
+
+
+def r04_17(ctx):
+    """R04.17 a file that holds nothing but comments and blank lines is an empty file for both parsers: parser 2 hands a text to the
+    pyparsing grammar (which demands at least one entry) only after the *preprocessed* text - comments already stripped - was found
+    non-empty; a test of the raw file size lets a comment-only `Kconfig.projbuild` through to the grammar, which rejects it."""
+    repo = ctx.repo
+    GR = "esp_kconfiglib.kconfig_grammar"
+    f = repo.func(f"{GR}:KconfigGrammar.__call__")
+    ctx.analysed(f.qual)
+    res = Resolver(f.node)
+    fl = Flow(f.node, resolver=res).run()
+    pre = [n for n in ast.walk(f.node) if isinstance(n, ast.Assign) and isinstance(n.value, ast.Call) and ast.unparse(n.value.func).endswith("preprocess_file")]
+    if not pre:
+        raise AnchorError("KconfigGrammar.__call__: no preprocess_file() result")
+    var = ast.unparse(pre[0].targets[0])
+    parses = [n for n in ast.walk(f.node) if isinstance(n, ast.Call) and isinstance(n.func, ast.Attribute) and n.func.attr in ("parse_string", "parseString")
+              and n.args and ast.unparse(n.args[0]) == var]
+    if not parses:
+        raise AnchorError("KconfigGrammar.__call__: no parse_string(<preprocessed text>) call")
+    for i, c in enumerate(parses):
+        construct = f"KconfigGrammar.__call__/parse #{i + 1} only of a non-empty preprocessed text"
+        gs = fl.guards_at(c) or set()
+        nonempty = any(k in (var, f"not {var}") and (pol if k == var else not pol) for k, pol in gs) or any(k == f"{var} == ''" and not pol for k, pol in gs)
+        nonblank = any(k == f"{var}.isspace()" and not pol for k, pol in gs) or any(k in (f"{var}.strip()", ) and pol for k, pol in gs)
+        if nonempty and nonblank:
+            ctx.ok(construct, f.loc(c))
+        else:
+            ctx.bad(construct, f"the grammar is applied to `{var}` under {sorted(gs)}: a text that is empty or blank after comment stripping reaches it "
+                    "(parser 2 raises where parser 1 accepts)", f.loc(c))
+
+
 def rules():
-    return [("R04.15", r04_15, 1), ("R04.14", r04_14, 3), ("R04.13", r04_13, 1), ("R04.12", r04_12, 5), ("R04.11", r04_11, 3), ("R04.10", r04_10, 4), ("R04.1", r04_1, 20), ("R04.2", r04_2, 25), ("R04.3", r04_3, 14), ("R04.4", r04_4, 8), ("R04.5", r04_5, 5),
+    return [("R04.17", r04_17, 2), ("R04.16", r04_16, 12), ("R04.15", r04_15, 1), ("R04.14", r04_14, 3), ("R04.13", r04_13, 1), ("R04.12", r04_12, 5), ("R04.11", r04_11, 3), ("R04.10", r04_10, 4), ("R04.1", r04_1, 20), ("R04.2", r04_2, 25), ("R04.3", r04_3, 14), ("R04.4", r04_4, 8), ("R04.5", r04_5, 5),
             ("R04.6", r04_6, 3), ("R04.7", r04_7, 3), ("R04.8", r04_8, 4), ("R04.8b", r04_8b, 5), ("R04.9", r04_9, 2)]
 
 
